@@ -129,7 +129,14 @@ def check_case(ctx, c):
                 except ValueError:
                     pass
     elif k == "batch":
-        got = [(list(cs), n) for cs, n in split_into_batches(circuits, ns, mx)]
+        # a batch is a pair (sequence of circuits, samples): a result of another shape is a wrong result, named as such
+        raw = list(split_into_batches(circuits, ns, mx))
+        try:
+            got = [(list(cs), n) for cs, n in raw]
+            if any(not all(any(x is y for y in circuits) for x in cs) for cs, _ in got):
+                raise TypeError("a batch holds something that is not one of the circuits")
+        except (TypeError, ValueError) as ex:
+            return out + [("batch:shape", "split_into_batches(ns=%s, max=%s) does not yield (circuits, samples) pairs: %s (%s)" % (ns, mx, [type(b_).__name__ if not isinstance(b_, tuple) else tuple(type(z_).__name__ for z_ in b_) for b_ in raw][:3], ex))]
         gotpos = [([next(i + 1 for i, x in enumerate(circuits) if x is y) for y in cs], n) for cs, n in got]
         exp = [(b["circs"], b["n"]) for b in c["batches"]]
         if gotpos != [(list(a), b) for a, b in exp]:
